@@ -379,6 +379,7 @@ var batchCounter int64
 var exploreDeadline time.Time
 
 type replayer struct {
+	extraEnv []string
 	patient bool // the next batch is a patient re-run of one vector
 	work   string
 	bin    map[string]string // target name -> test binary
@@ -496,6 +497,7 @@ func (r *replayer) runBatch(tp targetPkg, vecs []replayVector, timeout time.Dura
 	cmd := exec.Command(r.bin[tp.name], "-test.run", "^TestVerifReplay$", "-test.timeout", timeout.String())
 	cmd.Dir = tp.dir
 	cmd.Env = append(goEnv(), "VERIF_REPLAY_IN="+in, "VERIF_REPLAY_OUT="+out)
+	cmd.Env = append(cmd.Env, r.extraEnv...)
 	if r.patient {
 		// a patient re-run of a single vector: the per-vector watchdog is raised with the process limit
 		cmd.Env = append(cmd.Env, "VERIF_REPLAY_VECTIMEOUT="+(timeout-20*time.Second).String())
@@ -1576,6 +1578,8 @@ func confirmBySchedule(tp targetPkg, ov map[string][]byte, ce *CounterExample, v
 	if err := rp.build(tp); err != nil {
 		return "", false, err
 	}
+	// "settled" in the harness means that paused goroutines have finished their pause too
+	rp.extraEnv = []string{fmt.Sprintf("VERIF_SETTLE=%dms", 1500*pauseIdx+700)}
 	vec.Repeat = 1
 	outs, tail, err := rp.runBatch(tp, []replayVector{vec}, 20*time.Second)
 	if err != nil {
